@@ -256,6 +256,8 @@ class C15(core.Check):
             s += "  # included part"
         elif c < 0.3:
             s += " #x"
+        elif c < 0.36:
+            s += "#glued comment"  # a comment may start right after the name
         elif c < 0.4:
             s += "   "
         return s
